@@ -20,8 +20,15 @@ PATHS = ['/models/a.json', '/models/b.json', '/work/c.json']
 def gen_universe(seed, u):
     rng = Rng(derive(seed, 'C16', 'universe', u))
     docs = []
+    base = None
     for k in range(3):
-        spec = modelgen.gen_spec(rng.fork('spec', k))
+        if k == 1:
+            from .checkC12 import near_copy
+            spec = near_copy(rng.fork('copy'), base)   # same names as document 0, different bodies
+        else:
+            spec = modelgen.gen_spec(rng.fork('spec', k))
+        if k == 0:
+            base = spec
         ast = modelgen.to_json_ast(spec, rng.fork('json', k))
         docs.append({'kind': 'well-formed', 'text': orjson.dumps(ast).decode('utf-8')})
         if k < 2:
